@@ -71,4 +71,10 @@ def check(ctx, rep):
     qm = QModel(ctx, rep)
     if qm.ok:
         Qr.rule_one_consumer(qm, rep, 'R4')
+        # "every Ok-acknowledged metric appears exactly once": what the queue accepted is handed to the buffered sink once
+        # per metric, and the stop flag ends the loop only on an empty queue
+        from . import queuing2 as Q2
+        Qr.rule_task_closure(qm, rep, 'R4', parts=('once',))
+        keep = KeepOnly(rep, ('/flag-exit-only-when-drained',), 'R4')
+        Q2.rule_run_exit(qm, keep, Q2.rule_stop(qm, keep))
     S.rule_D3(ctx, rep, methods=('flush',))
